@@ -120,7 +120,7 @@ Section ACL.
 
   Theorem acl_round_converges stamp ri last (remote st : list acl_item) :
     NoDup (ids (filter acl_live st)) -> NoDup (ids (filter acl_live remote)) -> all_global remote ->
-    consistent (effective_last ri last) (view st) remote -> acl_hash_sound (view st) remote ->
+    consistent (effective_last ri last) (acl_repl st) remote -> acl_hash_sound (acl_repl st) remote ->
     Permutation (content (acl_repl (acl_round_m stamp ri last remote st))) (content (acl_repl remote)).
   Proof.
     intros Hst Hrem Hg Hc Hs. unfold acl_round_m.
@@ -135,7 +135,7 @@ Section ACL.
   Theorem acl_full_sync stamp ri last (remote st : list acl_item) :
     (ri < last)%N -> (forall y, In y remote -> (0 < it_mod y)%N) ->
     NoDup (ids (filter acl_live st)) -> NoDup (ids (filter acl_live remote)) -> all_global remote ->
-    acl_hash_sound (view st) remote ->
+    acl_hash_sound (acl_repl st) remote ->
     Permutation (content (acl_repl (acl_round_m stamp ri last remote st))) (content (acl_repl remote)).
   Proof.
     intros Hlt Hpos Hst Hrem Hg Hs. apply acl_round_converges; try assumption.
@@ -163,7 +163,7 @@ Section ACL.
 
   Theorem acl_idempotent last (remote st : list acl_item) :
     NoDup (ids (filter acl_live st)) -> NoDup (ids (filter acl_live remote)) -> all_global remote ->
-    hash_functional (view st) remote ->
+    hash_functional (acl_repl st) remote ->
     Permutation (content (acl_repl st)) (content (acl_repl remote)) ->
     acl_issued (d_del (acl_diff last (view st) remote)) = [] /\
     acl_issued (d_ups (acl_diff last (view st) remote)) = [].
@@ -198,7 +198,7 @@ Section Config.
 
   Theorem cfg_round_converges stamp ri last (remote st : list cfg_item) :
     NoDup (ids st) -> NoDup (ids remote) -> all_global remote ->
-    consistent (effective_last ri last) (view st) remote -> cfg_hash_sound (view st) remote ->
+    consistent (effective_last ri last) (cfg_repl st) remote -> cfg_hash_sound (cfg_repl st) remote ->
     Permutation (content (cfg_repl (cfg_round_m stamp ri last remote st))) (content (cfg_repl remote)).
   Proof.
     intros Hst Hrem Hg Hc Hs. unfold cfg_round_m, round.
@@ -210,7 +210,7 @@ Section Config.
 
   Theorem cfg_full_sync stamp ri last (remote st : list cfg_item) :
     (ri < last)%N -> (forall y, In y remote -> (0 < it_mod y)%N) ->
-    NoDup (ids st) -> NoDup (ids remote) -> all_global remote -> cfg_hash_sound (view st) remote ->
+    NoDup (ids st) -> NoDup (ids remote) -> all_global remote -> cfg_hash_sound (cfg_repl st) remote ->
     Permutation (content (cfg_repl (cfg_round_m stamp ri last remote st))) (content (cfg_repl remote)).
   Proof.
     intros Hlt Hpos Hst Hrem Hg Hs. apply cfg_round_converges; try assumption.
@@ -235,8 +235,8 @@ Section Config.
      (an entry stored before hashes existed) never does *)
   Theorem cfg_idempotent_partial last (remote st : list cfg_item) :
     NoDup (ids st) -> NoDup (ids remote) -> all_global remote ->
-    hash_functional (view st) remote ->
-    (forall x y, In x (view st) -> In y remote -> it_id x = it_id y ->
+    hash_functional (cfg_repl st) remote ->
+    (forall x y, In x (cfg_repl st) -> In y remote -> it_id x = it_id y ->
        (it_hash x <> 0%N /\ it_hash y <> 0%N) \/ (it_mod y <= last)%N) ->
     Permutation (content (cfg_repl st)) (content (cfg_repl remote)) ->
     cfg_issued (d_del (cfg_diff last (view st) remote)) = [] /\
@@ -262,7 +262,7 @@ Section Config.
      modified at the primary after [last] (here last = 0), is written again *)
   Theorem cfg_idempotent_refuted :
     exists last (remote st : list cfg_item),
-      NoDup (ids st) /\ NoDup (ids remote) /\ all_global remote /\ hash_functional (view st) remote /\
+      NoDup (ids st) /\ NoDup (ids remote) /\ all_global remote /\ hash_functional (cfg_repl st) remote /\
       Permutation (content (cfg_repl st)) (content (cfg_repl remote)) /\
       cfg_issued (d_ups (cfg_diff last (view st) remote)) <> [].
   Proof.
@@ -281,7 +281,7 @@ End Config.
 Section Fed.
   Theorem fed_round_converges stamp ri last (remote st : list fed_item) :
     NoDup (ids st) -> NoDup (ids remote) -> all_global remote ->
-    consistent (effective_last ri last) (view st) remote ->
+    consistent (effective_last ri last) (fed_repl st) remote ->
     Permutation (content (fed_repl (fed_round_m stamp ri last remote st))) (content (fed_repl remote)).
   Proof.
     intros Hst Hrem Hg Hc. unfold fed_round_m, round.
@@ -352,7 +352,7 @@ Definition ex_remote : list acl_item :=
 
 Lemma example_hypotheses :
   NoDup (ids (filter acl_live ex_st)) /\ NoDup (ids (filter acl_live ex_remote)) /\ all_global ex_remote /\
-  consistent (effective_last 8 5) (view ex_st) ex_remote /\ acl_hash_sound (view ex_st) ex_remote /\
+  consistent (effective_last 8 5) (acl_repl ex_st) ex_remote /\ acl_hash_sound (acl_repl ex_st) ex_remote /\
   content (acl_repl (acl_round_m 9 8 5 ex_remote ex_st)) = [([97]%N, 10%N); ([98]%N, 21%N); ([99]%N, 30%N)] /\
   filter acl_untouchable (acl_round_m 9 8 5 ex_remote ex_st) = filter acl_untouchable ex_st.
 Proof.
@@ -361,11 +361,248 @@ Proof.
   - vm_compute. repeat constructor; cbn; intuition discriminate.
   - intros y Hy. cbn in Hy. intuition (subst; reflexivity).
   - replace (effective_last 8 5) with 5%N by (vm_compute; reflexivity).
-    intros x y Hx Hy Hid Hm. cbn in Hx, Hy.
-    destruct Hx as [<-|[<-|[<-|[<-|[]]]]], Hy as [<-|[<-|[<-|[]]]]; cbn in *; try congruence; try lia.
-  - intros x y Hx Hy Hid Hm. cbn in Hx, Hy.
-    destruct Hx as [<-|[<-|[<-|[<-|[]]]]], Hy as [<-|[<-|[<-|[]]]]; cbn in *; try congruence;
+    intros x y Hx Hy Hid Hm. vm_compute in Hx. cbn in Hy.
+    destruct Hx as [<-|[<-|[<-|[]]]], Hy as [<-|[<-|[<-|[]]]]; cbn in *; try congruence; try lia.
+  - intros x y Hx Hy Hid Hm. vm_compute in Hx. cbn in Hy.
+    destruct Hx as [<-|[<-|[<-|[]]]], Hy as [<-|[<-|[<-|[]]]]; cbn in *; try congruence;
       vm_compute in Hm; congruence.
   - vm_compute. reflexivity.
+  - vm_compute. reflexivity.
+Qed.
+
+(* ------------------------------------------------------------------ across rounds, per instance *)
+Section AcrossRounds.
+  Theorem acl_two_rounds stamp stamp' ri ri' last (remote R' st : list acl_item) :
+    NoDup (ids (filter acl_live st)) -> NoDup (ids (filter acl_live remote)) -> all_global remote ->
+    consistent (effective_last ri last) (acl_repl st) remote -> acl_hash_sound (acl_repl st) remote ->
+    (ri <= ri')%N -> evolves_above ri remote R' ->
+    NoDup (ids (filter acl_live R')) -> all_global R' ->
+    acl_hash_sound (acl_repl (acl_round_m stamp ri last remote st)) R' ->
+    Permutation (content (acl_repl (acl_round_m stamp' ri' ri R' (acl_round_m stamp ri last remote st))))
+                (content (acl_repl R')).
+  Proof.
+    intros Hst Hrem Hg Hc Hs Hle Hev Hr' Hg'. unfold acl_round_m.
+    rewrite (acl_round_is_round bytes_eqb bytes_ltb bytes_is_empty bytes_eqb acl_applies
+               bytes_eqb_eq bytes_ltb_irrefl bytes_ltb_trans bytes_ltb_total stamp ri last remote st Hst Hrem).
+    intros Hs'.
+    rewrite (acl_round_is_round bytes_eqb bytes_ltb bytes_is_empty bytes_eqb acl_applies
+               bytes_eqb_eq bytes_ltb_irrefl bytes_ltb_trans bytes_ltb_total); try assumption.
+    - unfold round. rewrite (effective_last_forward ri' ri Hle).
+      apply (two_rounds bytes_eqb bytes_ltb bytes_is_empty bytes_eqb acl_applies
+               bytes_eqb_eq bytes_ltb_irrefl bytes_ltb_trans bytes_ltb_total); assumption.
+    - unfold round. apply (nodup_apply_round bytes_eqb bytes_is_empty acl_applies bytes_eqb_eq). exact Hst.
+  Qed.
+
+  Theorem acl_second_round_silent stamp ri last (remote st : list acl_item) :
+    NoDup (ids (filter acl_live st)) -> NoDup (ids (filter acl_live remote)) -> all_global remote ->
+    consistent (effective_last ri last) (acl_repl st) remote -> acl_hash_sound (acl_repl st) remote ->
+    (forall y, In y remote -> (it_mod y <= ri)%N) ->
+    acl_issued (d_del (acl_diff ri (view (acl_round_m stamp ri last remote st)) remote)) = [] /\
+    acl_issued (d_ups (acl_diff ri (view (acl_round_m stamp ri last remote st)) remote)) = [].
+  Proof.
+    intros Hst Hrem Hg Hc Hs Hm. unfold acl_round_m.
+    rewrite (acl_round_is_round bytes_eqb bytes_ltb bytes_is_empty bytes_eqb acl_applies
+               bytes_eqb_eq bytes_ltb_irrefl bytes_ltb_trans bytes_ltb_total stamp ri last remote st Hst Hrem).
+    unfold round.
+    apply (second_round_silent bytes_eqb bytes_ltb bytes_is_empty bytes_eqb acl_applies
+             bytes_eqb_eq bytes_ltb_irrefl bytes_ltb_trans bytes_ltb_total); assumption.
+  Qed.
+
+  Lemma cfg_all_live (l : list cfg_item) : filter cfg_live l = l.
+  Proof. apply (filter_true l). Qed.
+
+  Theorem cfg_two_rounds stamp stamp' ri ri' last (remote R' st : list cfg_item) :
+    NoDup (ids st) -> NoDup (ids remote) -> all_global remote ->
+    consistent (effective_last ri last) (cfg_repl st) remote -> cfg_hash_sound (cfg_repl st) remote ->
+    (ri <= ri')%N -> evolves_above ri remote R' -> NoDup (ids R') -> all_global R' ->
+    cfg_hash_sound (cfg_repl (cfg_round_m stamp ri last remote st)) R' ->
+    Permutation (content (cfg_repl (cfg_round_m stamp' ri' ri R' (cfg_round_m stamp ri last remote st))))
+                (content (cfg_repl R')).
+  Proof.
+    intros Hst Hrem Hg Hc Hs Hle Hev Hr' Hg' Hs'. unfold cfg_round_m, round in *.
+    rewrite (effective_last_forward ri' ri Hle).
+    apply (two_rounds cfg_eqb cfg_ltb cfg_is_empty cfg_same_hash cfg_applies
+             cfg_eqb_spec cfg_ltb_irrefl cfg_ltb_trans cfg_ltb_total); try assumption;
+      fold cfg_live; rewrite cfg_all_live; assumption.
+  Qed.
+
+  (* after a round, a round on the unchanged primary writes nothing -- even for entries with a zero hash,
+     because the returned index is at or above every modify index of the snapshot *)
+  Theorem cfg_second_round_silent stamp ri last (remote st : list cfg_item) :
+    NoDup (ids st) -> NoDup (ids remote) -> all_global remote ->
+    consistent (effective_last ri last) (cfg_repl st) remote -> cfg_hash_sound (cfg_repl st) remote ->
+    (forall y, In y remote -> (it_mod y <= ri)%N) ->
+    cfg_issued (d_del (cfg_diff ri (view (cfg_round_m stamp ri last remote st)) remote)) = [] /\
+    cfg_issued (d_ups (cfg_diff ri (view (cfg_round_m stamp ri last remote st)) remote)) = [].
+  Proof.
+    intros Hst Hrem Hg Hc Hs Hm. unfold cfg_round_m, round.
+    apply (second_round_silent cfg_eqb cfg_ltb cfg_is_empty cfg_same_hash cfg_applies
+             cfg_eqb_spec cfg_ltb_irrefl cfg_ltb_trans cfg_ltb_total); try assumption;
+      fold cfg_live; rewrite cfg_all_live; assumption.
+  Qed.
+
+  Theorem fed_second_round_silent stamp ri last (remote st : list fed_item) :
+    NoDup (ids st) -> NoDup (ids remote) -> all_global remote ->
+    consistent (effective_last ri last) (fed_repl st) remote ->
+    (forall y, In y remote -> (it_mod y <= ri)%N) ->
+    fed_issued (d_del (fed_diff ri (view (fed_round_m stamp ri last remote st)) remote)) = [] /\
+    fed_issued (d_ups (fed_diff ri (view (fed_round_m stamp ri last remote st)) remote)) = [].
+  Proof.
+    intros Hst Hrem Hg Hc Hm. unfold fed_round_m, round.
+    apply (second_round_silent bytes_eqb bytes_ltb fed_is_empty fed_same_hash fed_applies
+             bytes_eqb_eq bytes_ltb_irrefl bytes_ltb_trans bytes_ltb_total); try assumption;
+      fold fed_live; try (change (filter fed_live ?l) with (filter (fun _ : fed_item => true) l);
+                          rewrite filter_true; assumption).
+    intros x y _ _ _ Hs. discriminate.
+  Qed.
+End AcrossRounds.
+
+(* ------------------------------------------------------------------ where the code departs from the idealised round *)
+Ltac small_lists Hx Hy :=
+  vm_compute in Hx, Hy;
+  repeat (destruct Hx as [<-|Hx]; [|try contradiction]); try contradiction;
+  repeat (destruct Hy as [<-|Hy]; [|try contradiction]); try contradiction.
+
+(* (a) a write the state store refuses: two policies (or roles) whose names were swapped at the primary *)
+Definition swap_st : list acl_item :=
+  [Item [1]%N 3 [11]%N 1048577 false; Item [2]%N 3 [12]%N 2097154 false].     (* id1: name 1, id2: name 2 *)
+Definition swap_remote : list acl_item :=
+  [Item [1]%N 8 [13]%N 2097155 false; Item [2]%N 9 [14]%N 1048580 false].     (* id1: name 2, id2: name 1 *)
+
+Theorem store_refuses_name_swap :
+  NoDup (ids (filter acl_live swap_st)) /\ NoDup (ids (filter acl_live swap_remote)) /\ all_global swap_remote /\
+  consistent (effective_last 10 5) (acl_repl swap_st) swap_remote /\ acl_hash_sound (acl_repl swap_st) swap_remote /\
+  (* the round fails and leaves the table as it was; so does every retry (Replicator.Run retries with last = 0) *)
+  acl_round_store_m 0 10 5 swap_remote swap_st = (swap_st, false) /\
+  acl_round_store_m 0 10 0 swap_remote swap_st = (swap_st, false) /\
+  (* while the idealised round would have converged *)
+  content (acl_repl (acl_round_m 0 10 5 swap_remote swap_st)) = content (acl_repl swap_remote) /\
+  content (acl_repl swap_st) <> content (acl_repl swap_remote).
+Proof.
+  split; [|split; [|split; [|split; [|split; [|split; [|split; [|split]]]]]]].
+  - vm_compute. repeat constructor; cbn; intuition discriminate.
+  - vm_compute. repeat constructor; cbn; intuition discriminate.
+  - intros y Hy. cbn in Hy. intuition (subst; reflexivity).
+  - replace (effective_last 10 5) with 5%N by (vm_compute; reflexivity).
+    intros x y Hx Hy Hid Hm. small_lists Hx Hy; cbn in *; try congruence; lia.
+  - intros x y Hx Hy Hid Hm. small_lists Hx Hy; cbn in *; try congruence; vm_compute in Hm; congruence.
+  - vm_compute. reflexivity.
+  - vm_compute. reflexivity.
+  - vm_compute. reflexivity.
+  - vm_compute. discriminate.
+Qed.
+
+Theorem acl_store_round_accepted stamp ri last (remote st st' : list acl_item) :
+  acl_round_store_m stamp ri last remote st = (st', true) -> st' = acl_round_m stamp ri last remote st.
+Proof. apply (store_round_accepted bytes_eqb bytes_ltb bytes_is_empty bytes_eqb acl_applies acl_name_of). Qed.
+
+(* (b) two snapshots: the token batch read is answered from an older snapshot than the list *)
+Definition stale_st : list acl_item := [Item [1]%N 5 [1]%N 1 false].
+Definition stale_list : list acl_item := [Item [1]%N 10 [2]%N 2 false].    (* what ACL.TokenList shows *)
+Definition stale_batch : list acl_item := [Item [1]%N 5 [1]%N 1 false].    (* what ACL.TokenBatchRead returns *)
+
+Theorem stale_batch_read_sticks :
+  NoDup (ids (filter acl_live stale_st)) /\ NoDup (ids (filter acl_live stale_list)) /\ all_global stale_list /\
+  consistent (effective_last 12 6) (acl_repl stale_st) stale_list /\ acl_hash_sound (acl_repl stale_st) stale_list /\
+  (forall y, In y stale_list -> (it_mod y <= 12)%N) /\
+  (* round 1 writes the old content and returns index 12; round 2 (one snapshot, last = 12) changes nothing *)
+  let st1 := acl_round_two_m 0 12 6 stale_list stale_batch stale_st in
+  let st2 := acl_round_m 0 12 12 stale_list st1 in
+  content (acl_repl st2) = [([1]%N, 1%N)] /\ content (acl_repl stale_list) = [([1]%N, 2%N)].
+Proof.
+  split; [|split; [|split; [|split; [|split; [|split; [|split]]]]]].
+  - vm_compute. repeat constructor; cbn; intuition discriminate.
+  - vm_compute. repeat constructor; cbn; intuition discriminate.
+  - intros y Hy. cbn in Hy. intuition (subst; reflexivity).
+  - replace (effective_last 12 6) with 6%N by (vm_compute; reflexivity).
+    intros x y Hx Hy Hid Hm. small_lists Hx Hy; cbn in *; lia.
+  - intros x y Hx Hy Hid Hm. small_lists Hx Hy. vm_compute in Hm. congruence.
+  - intros y Hy. cbn in Hy. destruct Hy as [<-|[]]. cbn. lia.
+  - vm_compute. reflexivity.
+  - vm_compute. reflexivity.
+Qed.
+
+Theorem acl_two_snapshots_agree stamp ri last (remote batch st : list acl_item) :
+  fetch_updated bytes_eqb (ids (d_ups (acl_diff (effective_last ri last) (view st) remote))) (isort bytes_ltb batch) =
+  fetch_updated bytes_eqb (ids (d_ups (acl_diff (effective_last ri last) (view st) remote))) (isort bytes_ltb remote) ->
+  acl_round_two_m stamp ri last remote batch st = acl_round_m stamp ri last remote st.
+Proof. apply (two_snapshots_agree bytes_eqb bytes_ltb bytes_is_empty bytes_eqb acl_applies). Qed.
+
+(* ------------------------------------------------------------------ more non-vacuity *)
+Definition eq_st : list acl_item := [Item [98]%N 4 [2]%N 20 false; Item [97]%N 9 [1]%N 10 false; Item [108]%N 6 [7]%N 70 true].
+Definition eq_remote : list acl_item := [Item [97]%N 7 [1]%N 10 false; Item [98]%N 8 [2]%N 20 false].
+
+Lemma example_idempotent_acl :
+  NoDup (ids (filter acl_live eq_st)) /\ NoDup (ids (filter acl_live eq_remote)) /\ all_global eq_remote /\
+  hash_functional (acl_repl eq_st) eq_remote /\
+  Permutation (content (acl_repl eq_st)) (content (acl_repl eq_remote)) /\
+  acl_diff 0 (view eq_st) eq_remote = DiffRes [] [] 0 0.
+Proof.
+  split; [|split; [|split; [|split; [|split]]]].
+  - vm_compute. repeat constructor; cbn; intuition discriminate.
+  - vm_compute. repeat constructor; cbn; intuition discriminate.
+  - intros y Hy. cbn in Hy. intuition (subst; reflexivity).
+  - intros x y Hx Hy Hid Hb. small_lists Hx Hy; cbn in *; congruence.
+  - vm_compute. apply perm_swap.
+  - vm_compute. reflexivity.
+Qed.
+
+Definition k_exp_z : ckey := (exported_services, [122]%N).
+Definition cex_st : list cfg_item :=
+  [Item k_svc_a 3 5%N 1 false; Item k_exp_z 2 6%N 9 false; Item ([115;118;99]%N, [98]%N) 4 0%N 2 false].
+Definition cex_remote : list cfg_item :=
+  [Item ([115;118;99]%N, [98]%N) 2 0%N 2 false; Item k_svc_a 7 8%N 3 false; Item k_exp_z 9 7%N 4 false].
+
+(* config entries: an outdated entry, an unhashed equal one not newer than last, exported-services entries on
+   both sides with different content: hypotheses of C19_round_config, C19_local_untouched_config and (for the
+   second round) C19_idempotent_config_partial are met, and the functions compute what the theorems say *)
+Lemma example_config :
+  NoDup (ids cex_st) /\ NoDup (ids cex_remote) /\ all_global cex_remote /\
+  consistent (effective_last 9 5) (cfg_repl cex_st) cex_remote /\ cfg_hash_sound (cfg_repl cex_st) cex_remote /\
+  content (cfg_repl (cfg_round_m 0 9 5 cex_remote cex_st)) = [(([115;118;99]%N, [98]%N), 2%N); (k_svc_a, 3%N)] /\
+  filter cfg_untouchable (cfg_round_m 0 9 5 cex_remote cex_st) = [Item k_exp_z 2 6%N 9 false] /\
+  (forall x y, In x (cfg_repl (cfg_round_m 0 9 5 cex_remote cex_st)) -> In y cex_remote -> it_id x = it_id y ->
+     (it_hash x <> 0%N /\ it_hash y <> 0%N) \/ (it_mod y <= 9)%N) /\
+  cfg_issued (d_ups (cfg_diff 9 (view (cfg_round_m 0 9 5 cex_remote cex_st)) cex_remote)) = [].
+Proof.
+  split; [|split; [|split; [|split; [|split; [|split; [|split; [|split]]]]]]].
+  - vm_compute. repeat constructor; cbn; intuition discriminate.
+  - vm_compute. repeat constructor; cbn; intuition discriminate.
+  - intros y Hy. cbn in Hy. intuition (subst; reflexivity).
+  - replace (effective_last 9 5) with 5%N by (vm_compute; reflexivity).
+    intros x y Hx Hy Hid Hm. small_lists Hx Hy; cbn in *; try congruence; lia.
+  - intros x y Hx Hy Hid Hm. small_lists Hx Hy; cbn in *; try congruence; vm_compute in Hm; congruence.
+  - vm_compute. reflexivity.
+  - vm_compute. reflexivity.
+  - intros x y Hx Hy Hid. small_lists Hx Hy; cbn in *; try congruence; right; lia.
+  - vm_compute. reflexivity.
+Qed.
+
+(* the primary's index went backwards (rebuilt primary): hypotheses of C19_full_sync_acl with a secondary whose
+   [last] is useless *)
+Lemma example_full_sync :
+  (8 < 50)%N /\ (forall y, In y ex_remote -> (0 < it_mod y)%N) /\ acl_hash_sound (acl_repl ex_st) ex_remote /\
+  content (acl_repl (acl_round_m 9 8 50 ex_remote ex_st)) = [([97]%N, 10%N); ([98]%N, 21%N); ([99]%N, 30%N)].
+Proof.
+  split; [lia|split; [|split]].
+  - intros y Hy. cbn in Hy. destruct Hy as [<-|[<-|[<-|[]]]]; cbn; lia.
+  - intros x y Hx Hy Hid Hm. small_lists Hx Hy; cbn in *; try congruence; vm_compute in Hm; congruence.
+  - vm_compute. reflexivity.
+Qed.
+
+Definition fex_st : list fed_item := [Item [100;99;50]%N 3 tt 1 false; Item [100;99;51]%N 3 tt 5 false].
+Definition fex_remote : list fed_item := [Item [100;99;50]%N 7 tt 2 false; Item [100;99;49]%N 2 tt 3 false].
+
+Lemma example_fed :
+  NoDup (ids fex_st) /\ NoDup (ids fex_remote) /\ all_global fex_remote /\
+  consistent (effective_last 8 4) (fed_repl fex_st) fex_remote /\
+  content (fed_repl (fed_round_m 0 8 4 fex_remote fex_st)) = [([100;99;49]%N, 3%N); ([100;99;50]%N, 2%N)].
+Proof.
+  split; [|split; [|split; [|split]]].
+  - vm_compute. repeat constructor; cbn; intuition discriminate.
+  - vm_compute. repeat constructor; cbn; intuition discriminate.
+  - intros y Hy. cbn in Hy. intuition (subst; reflexivity).
+  - replace (effective_last 8 4) with 4%N by (vm_compute; reflexivity).
+    intros x y Hx Hy Hid Hm. small_lists Hx Hy; cbn in *; try congruence; lia.
   - vm_compute. reflexivity.
 Qed.
